@@ -19,12 +19,18 @@ type theFieldInfo struct {
 	JSONName          string
 }
 
-func appendFields(fields []theFieldInfo, parentIndex []int, t reflect.Type) []theFieldInfo {
+func appendFields(fields []theFieldInfo, parentIndex []int, t reflect.Type, embedding ...reflect.Type) []theFieldInfo {
 	if t.Kind() == reflect.Ptr {
 		t = t.Elem()
 	}
 	if t.Kind() != reflect.Struct {
 		return fields
+	}
+	// A struct may embed a pointer to its own type: it has no further fields to promote.
+	for _, outer := range embedding {
+		if outer == t {
+			return fields
+		}
 	}
 
 	// For each field
@@ -43,7 +49,7 @@ iteration:
 				continue
 			}
 			if jsonTag == "" {
-				fields = appendFields(fields, index, f.Type)
+				fields = appendFields(fields, index, f.Type, append(embedding, t)...)
 				continue iteration
 			}
 		}
